@@ -63,7 +63,7 @@ def run(ctx, variants=(("verif", "c04"), ("verif,unsafe", "c04u"))):
     ctx.coverage["rule"] = ("every response type x version: the well-formed small-full frame and copies with ONE position overwritten as an int32 "
                             "{-1, min, max, rest+1, orig+-1, 0}, int16 {-1, max, min, rest+1} or varint {2^31-1, 2^31, 2^63, 2^64-1, 11 continuation bytes, 0,1,2} "
                             "(quick: frame size, first body offsets, 6 random offsets; thorough: every offset, random values too), plus size prefix 2^31-1; "
-                            "decoded by the real ReadResponse in a child process (ulimit -v 4 GiB, GOMEMLIMIT 512 MiB, 15 s timeout), outcome ok/err/panic/oom/timeout "
+                            "decoded by the real ReadResponse in a child process (ulimit -v 4 GiB, GOMEMLIMIT 512 MiB, 8 s timeout, stops after 20 crashed cases), outcome ok/err/panic/oom/timeout "
                             "and measured TotalAlloc <= 256*len+1MiB compared with the model's ok/err/panic/balloon. distinct = distinct frames")
     concrete = [d for d in dis if d.get("kind") == "disagreement" and not d["holds_on_impl"]]
     others = [d for d in dis if d not in concrete]
